@@ -684,6 +684,28 @@ def _transform(ctx, prog):
                 a.args[1][0] is tpar:
             return True
         return None
+    # a similarity T = (s, R, t): only T*P scales the positions — P*T has
+    # the position R_p t + p, which no scale of T touches. If transform()
+    # rescales the path at all, that must not happen for right
+    # multiplication.
+    for pr in (False, True):
+        rs = run_in_state(prog, f, st, {"right_mul": const(True),
+                                        "propagate": const(pr)},
+                          prog.cls(PATH),
+                          extra_assume=lambda a: False if rigid(a) else None)
+        sc = [e for e in rs.of_kind("call")
+              if (e.data.get("name") or "").endswith(".scale") and
+              e.data.get("recv") is selfp and
+              not tm.is_const(e.live, False)]
+        if sc or pr is False:
+            ctx.ob("C08.5", sc[0] if sc else f, not sc,
+                   "transform[right_mul]: the path is not rescaled for a "
+                   "right multiplication" if not sc else
+                   f"transform[right_mul=True,propagate={pr}]: the positions "
+                   f"are scaled ({sc[0].where}) although P*T leaves every "
+                   f"position at R_p t + p for a similarity T too",
+                   key="C08.5:transform:right_mul:no-scale",
+                   nontrivial=bool(sc))
     for rm, pr in itertools.product([False, True], repeat=2):
         res = run_in_state(prog, f, st, {"right_mul": const(rm),
                                          "propagate": const(pr)},
